@@ -32,7 +32,7 @@ cd /verif
 IDS=${CHECK_IDS:-$ID}
 res=""
 for c in $IDS; do
-  out=$(./check $c quick 2>&1); rc=$?
+  out=$(VERIF_EVIDENCE_DIR=/verif/target/side-evidence ./check $c quick 2>&1); rc=$?
   line=$(echo "$out" | grep -E "FAILURE|INCONCLUSIVE|^OK" | head -1)
   echo "check $c rc=$rc $line"
   res="$res$c:rc=$rc:$line;"
